@@ -49,31 +49,15 @@ def produce(ctx):
 
 def _rerun(ctx0):
     def f(ctx, scenario, out):
-        # re-execute the chain of the saved scenario (its first line names it) with the same arguments
-        first = json.loads(open(scenario).readline())
+        # re-execute the saved conversation: its first line names the chain, its messages are played again
+        evs = [json.loads(line) for line in open(scenario)]
         names = ["typical", "rangefirst", "filefirst", "filebeforesid", "nolease", "nostatic", "staticinside", "leaseafter"]
-        c = names.index(first.get("name", "typical"))
+        c = names.index(evs[0].get("name", "typical"))
+        letters = [{"C": e["c"], "Mt": e["mt"], "Sid": e["sid"]} for e in evs if e["ev"] == "cmsg"]
         wd = ctx.scratch.sub("conv-rerun")
-        tmp = os.path.join(wd, "all.ndjson")
-        core.run_harness(ctx.need_harness(), ["conv"] + [str(a) for a in _args(ctx, c)] + ["-out", tmp, "-dir", os.path.join(wd, "d")], wd, timeout=1800)
-        # keep only the scenario with the same letters
-        want = [(e["c"], e["mt"], e["sid"]) for e in map(json.loads, open(scenario)) if e["ev"] == "cmsg"]
-        cur, keep = [], None
-        for line in open(tmp):
-            e = json.loads(line)
-            if e["ev"] == "creset":
-                if cur and [(x["c"], x["mt"], x["sid"]) for x in cur[1:]][:len(want)] == want and keep is None:
-                    keep = cur
-                cur = [e]
-            else:
-                cur.append(e)
-        if keep is None and cur and [(x["c"], x["mt"], x["sid"]) for x in cur[1:]][:len(want)] == want:
-            keep = cur
-        if keep is None:
-            raise Infra("the saved conversation was not found in the re-run")
-        with open(out, "w") as g:
-            for e in keep:
-                g.write(json.dumps(e) + "\n")
+        jf = os.path.join(wd, "one.json")
+        json.dump([letters], open(jf, "w"))
+        core.run_harness(ctx.need_harness(), ["conv", "-chain", c, "-in", jf, "-out", out, "-dir", os.path.join(wd, "d")], wd, timeout=600)
     return f
 
 
@@ -86,6 +70,22 @@ def run(ctx, design=True):
             for cfg, inv in WEAK:
                 ctx.design("ConvMC.tla", cfg, expect_fail=inv)
     t = produce(ctx)
+    # model -> code: conversations of RFC 2131 clients simulated by TLC from ConvGen, played to the real chains
+    gen = 0
+    h = ctx.need_harness()
+    wd = ctx.scratch.sub("conv-gen")
+    with open(t, "a") as f:
+        for ci, name in ((0, "typical"), (1, "rangefirst"), (2, "filefirst"), (3, "filebeforesid")):
+            scns = core.simulate_scenarios(ctx.scratch, "ConvGen", "ConvGen_%s.cfg" % name, 60 if ctx.quick else 1200, 12, ctx.seed + ci)
+            if len(scns) < 5:
+                raise Infra("TLC simulation of ConvGen (%s) produced only %d behaviours" % (name, len(scns)))
+            for part in range(0, len(scns), 250):      # bounded scenarios per process (the range plugin keeps its databases open)
+                jf = os.path.join(wd, "gen-%s-%d.json" % (name, part))
+                json.dump(scns[part:part + 250], open(jf, "w"))
+                out = os.path.join(wd, "gen-%s-%d.ndjson" % (name, part))
+                core.run_harness(h, ["conv", "-chain", ci, "-in", jf, "-seed", ctx.seed, "-out", out, "-dir", os.path.join(wd, "d-%s-%d" % (name, part))], wd, timeout=1800)
+                f.write(open(out).read())
+            gen += len(scns)
     msgs = sum(1 for line in open(t) if '"ev":"cmsg"' in line)
     if msgs == 0:
         raise Infra("the conversation run recorded no message")
@@ -96,7 +96,7 @@ def run(ctx, design=True):
     drift = runner.TraceJob("conv-all", "ConvTrace", t, {"Lens": core.tla_set(["CONV"])}, chunk=20000, boundary=lambda e: e.get("ev") == "creset", drift=True)
     runner.run_job(ctx, drift)
     ctx.events, ctx.traces_ok = ev, tr
-    return {"conversation_messages_through_whole_chains": msgs, "chains": CHAINS}
+    return {"conversation_messages_through_whole_chains": msgs, "chains": CHAINS, "tlc_generated_conversations_replayed": gen}
 
 
 def replay(ctx, path):
